@@ -223,15 +223,25 @@ def check(case, ctx):
         return
 
     # ---- generate under the scripted / seeded RNG ---------------------------------------------
-    entry = len(case["rng"]) % 2
+    entry = len(case["rng"]) % 3
+
+    def gen():
+        if entry == 0:
+            return fake(S)
+        if entry == 1:
+            return ~S
+        # a generator of one's own with an injected Random, as the library allows
+        from d42.generation import Generator, Random, RegexGenerator
+        rnd = Random()
+        return S.__accept__(Generator(rnd, RegexGenerator(rnd)))
     try:
         if case["seed"] is None:
             with rng.scripted(case["rng"]) as r:
-                g = fake(S) if entry == 0 else ~S
+                g = gen()
         else:
             r = None
             with rng.seeded(case["seed"]):
-                g = fake(S) if entry == 0 else ~S
+                g = gen()
     except Exception as e:  # noqa
         raise Violation(f"fake-raises:{type(e).__name__}", f"fake({_r(S)}) raised {e!r}")
     try:
@@ -252,7 +262,7 @@ def check(case, ctx):
         ctx.label("grid-hugging-bounds")
     if spec["t"] == "subst" and _has_ellipsis(spec["v"]):
         ctx.label("subst-with-placeholders")
-    ctx.label("mode:scripted" if r is not None else "mode:seeded")
+    ctx.label("mode:scripted" if r is not None else "mode:seeded", "entry:%s" % ("fake", "invert", "own-generator")[entry])
     if r is not None and r.extremes:
         ctx.label("has-extreme-draw")
     if r is None or r.draws > 0:
